@@ -163,7 +163,8 @@ def _looks_datelike(s):
             out.append(ch.lower() if len(ch.lower()) == 1 else ch)
     t = "".join(out)
     return (
-        re.match(r"\A0{4}- ?0{1,2}- ?0{1,2}t ?0{1,2}: ?0{1,2}: ?0{1,2}z\Z", t) is not None
+        # strptime: %Y exactly 4 digits; %m %H %M %S one or two digits; %d one or two digits or blank + digit
+        re.match(r"\A0{4}-0{1,2}-(?:0{1,2}| 0)t0{1,2}:0{1,2}:0{1,2}z\Z", t) is not None
     )
 
 
